@@ -264,6 +264,7 @@ func sub(s schema.Change) string {
 		if _, ok := s.To.(*schema.Comment); ok {
 			return "Comment comment"
 		}
+		return fmt.Sprintf("ModifyAttr %T %+v -> %+v", s.To, s.From, s.To)
 	case *schema.DropAttr:
 		if _, ok := s.A.(*schema.Comment); ok {
 			return "Comment comment"
